@@ -53,7 +53,7 @@ def gen_cases(ctx):
     corpus = json.load(open(os.path.join("corpus", "C14", "cases.json")))
     for c in corpus:
         cases.append({"mode": c["mode"], "msgs": c["msgs"], "origin": "corpus"})
-    n_rand = 1500 if ctx.thorough else 260
+    n_rand = 1000 if ctx.thorough else 260
     for i in range(n_rand):
         malformed = rng.random() < 0.15
         nmsg = rng.choice([1, 2, 3, 4, 5, 6, 8, 10, 14])
@@ -183,7 +183,7 @@ def run(ctx):
     if os.path.exists(outp):
         os.remove(outp)
     ctx.log("running %d cases on real actors" % len(cases))
-    rc, out = ctx.go_test("actor", "^TestVerifC14", ["zz_verif_C14_test.go"])
+    rc, out = ctx.go_test("actor", "^TestVerifC14", ["zz_verif_C14_test.go"], timeout=1800)
     ctx.log("go harness done rc=%d" % rc)
     outs = read_jsonl(outp)
     if rc != 0 or len(outs) != len(cases):
